@@ -209,7 +209,7 @@ func cmdCheck(args []string) int {
 	r.tier, r.prop = *tier, prop
 	var sel []*Obligation
 	for _, ob := range r.obls {
-		if prop == "all" || hasTag(ob.Tags, prop) {
+		if (prop == "all" && len(ob.Tags) > 0 && !hasTag(ob.Tags, "none")) || hasTag(ob.Tags, prop) {
 			if *only != "" && ob.Name != *only {
 				continue
 			}
@@ -277,6 +277,7 @@ func cmdCheck(args []string) int {
 	var solverMs int64
 	nObl, nDis, nCanary, nBounded, nBoundedOK, violations := 0, 0, 0, 0, 0, 0
 	axiomProbesRun := 0
+	nRtc, rtcCases := 0, 0
 	var rtcIdle []string
 	backends := map[string]int{}
 	var boundedList []map[string]interface{}
@@ -309,6 +310,10 @@ func cmdCheck(args []string) int {
 			// nothing was executed (ghost-state clause, function not runnable): says nothing
 			rtcIdle = append(rtcIdle, ob.Name+": "+ob.Detail)
 			continue
+		}
+		if ob.Kind == "rtc" {
+			nRtc++
+			rtcCases += ob.Cases
 		}
 		if ob.Bounded {
 			nBounded++
@@ -421,6 +426,8 @@ func cmdCheck(args []string) int {
 		"solver_time_s":            float64(solverMs) / 1000.0,
 		"vacuity_canaries":         nCanary,
 		"axiom_probes":             axiomProbesRun,
+		"executable_contract_clauses": nRtc,
+		"executable_contract_cases":   rtcCases,
 		"bounded":                  boundedList,
 		"bounded_total":            nBounded,
 		"bounded_passed":           nBoundedOK,
